@@ -15,7 +15,9 @@
     is a row of their input (R5.outlier-input);
  R6 group-locality: where a group table reads the counted votes of nonreporting units from a second table by position (gaussian
     aggregate floor inside assign(lambda)), both tables have the same row signature (sorted by the keys, fresh range index), so a
-    partial count only reaches the floor of its own group.
+    partial count only reaches the floor of its own group;
+ R7 pev-present: the data handler fills a missing percent_expected_vote of the joined frame with a number - a unit kept as not
+    reporting must not carry a NaN into the bootstrap model's clip bounds, whose NaN the 0/1 group products spread to every group.
 """
 from __future__ import annotations
 
@@ -424,6 +426,17 @@ def _excluded(ctx):
     fNm = us.rs.member(nonmod)
     fUx = us.rs.member(unexpected)
     _outlier_inputs(ctx, us, items)
+    # R7: the group totals of the bootstrap model are 0/1-indicator matrix products over ALL nonreporting units, and 0 * NaN is NaN:
+    # one unit with a NaN prediction reaches every group. The per-unit clip bounds are computed from percent_expected_vote, which
+    # comes from the feed through a LEFT join and can be missing for a unit that is kept as not reporting - so the joined column has
+    # to be filled with a number when the data handler is built (F32)
+    pev_ok = "percent_expected_vote" in us.never_missing
+    ini_ = ctx.fn("elexmodel.handlers.data.CombinedData", "CombinedDataHandler.__init__")
+    ctx.ob("C10.R7.pev-present", f"{ini_.qualname}|a unit without an expected vote in the feed gets a number", pev_ok, ini_.where(),
+           "the joined percent_expected_vote is filled with a number: no unit carries a NaN into the bounds / group products of the bootstrap model" if pev_ok
+           else "percent_expected_vote of a baseline unit can stay missing after the join: kept as 'not reporting', it gets NaN clip bounds in the "
+                "bootstrap model, a NaN prediction, and the 0/1 indicator products spread that NaN to every group (nan_to_num then reports margin 0 "
+                "and a NaN turnout for the state and for every county)")
     for name, fr in (("reporting", us.fR), ("nonreporting", us.fN)):
         ok1, cex, n = rs.equivalent(rs.And(fr, fNm), rs.F)
         ok2, cex2, n2 = rs.equivalent(rs.And(fr, fUx), rs.F)
